@@ -13,10 +13,10 @@ func init() {
 	register(&PropertyDef{
 		ID:          "C09",
 		Title:       "Concurrent sends never reuse a counter, key or nonce; chain only moves forward",
-		Explanation: "Decides, for every schedule at once, the locking and arithmetic shape that makes counters unique: (D1) in SealEnvelope the read of the own chain key, the sealing (secretbox.Seal, Sign), the write of the next precomputed key and the write of the advanced chain key all happen with the secret store's message mutex write-held, acquired once before the first of them, with no release of that mutex anywhere in the code reachable from those steps; (D3) every Put on the chain-key namespace that can overwrite an existing entry is reached only on call paths holding that write lock (creation puts, dominated by the 'no chain key stored' outcome of a lookup, are exempt: they cannot overwrite); (D4) the updater of the stored chain key is monotone: evaluated abstractly over the orderings {new<stored, new=stored, new>stored} it never writes when new<stored and always writes when new>stored; (D6) the own chain key is looked up, generated on a miss and stored inside one write-locked critical section; the updater fails when it cannot read the stored key; (D5) the counter sealed into the headers and used as nonce is the stored counter + 1 and the chain key stored afterwards carries stored counter + 1 (same increment on both sides). Not decided: that every envelope opens at a receiver (C01/C02), behaviour under real parallel runs, datastore atomicity.",
-		Trusted:     []string{"go/ssa (x/tools v0.29.0)", "sync.RWMutex semantics", "lock identity by owner type + field (one message mutex per secret store)"},
+		Explanation: "Decides, for every schedule at once, the locking and arithmetic shape that makes counters unique: (D1) in SealEnvelope the read of the own chain key, the sealing (secretbox.Seal, Sign), the write of the next precomputed key and the write of the advanced chain key all happen with the secret store's message mutex write-held, acquired once before the first of them, with no release of that mutex anywhere in the code reachable from those steps; (D3) every Put on the chain-key namespace that can overwrite an existing entry is reached only on call paths holding that write lock (creation puts, dominated by the 'no chain key stored' outcome of a lookup, are exempt: they cannot overwrite); (D4) the updater of the stored chain key is monotone: evaluated abstractly over the orderings {new<stored, new=stored, new>stored} it never writes when new<stored and always writes when new>stored; (D6) the own chain key is looked up, generated on a miss and stored inside one write-locked critical section; the updater fails when it cannot read the stored key; (D5) the counter sealed into the headers and used as nonce is the stored counter + 1 and the chain key stored afterwards carries stored counter + 1 (same increment on both sides); (D7) the own chain key is created only when its lookup reported exactly the 'missing' sentinel, and every function behind that lookup returns the sentinel only on the datastore's own not-found outcome (err == / errors.Is datastore.ErrNotFound) or after a successful read - an I/O fault or a cancelled context surfaces as a different error, so a transient read fault can never replace an advanced chain key by a fresh one at counter 0; (D8) the chain moves forward by SealEnvelope only: on every call path from OpenEnvelopePayload to an overwriting Put of a chain key the update is skipped when the sender decoded from headers.DevicePk equals the own-device parameter (or runs when that parameter is nil), and every module call of OpenEnvelopePayload passes as that parameter the Device() key of an OwnMemberDevice (through locals, fields and helpers) or nil - never Member() or a foreign key. Not decided (D7/D8): implementations of the datastore/keystore interfaces outside the module; that the OwnMemberDevice whose Device() is passed belongs to the same group as the store. Not decided: that every envelope opens at a receiver (C01/C02), behaviour under real parallel runs, datastore atomicity.",
+		Trusted:     []string{"go/ssa (x/tools v0.29.0)", "sync.RWMutex semantics", "lock identity by owner type + field (one message mutex per secret store)", "go-datastore: Get returns ErrNotFound (possibly wrapped) iff the key is absent", "errcode.Is compares the top-level code only"},
 		Assumptions: []string{"a secret store is not shared between two datastores; the datastore's Put is atomic per key"},
-		Floors:      map[string]int{"D1": 3, "D3": 3, "D4": 4, "D5": 3, "D6": 1},
+		Floors:      map[string]int{"D1": 3, "D3": 3, "D4": 4, "D5": 3, "D6": 1, "D7": 2, "D8": 2},
 		Run:         runC09,
 	})
 }
@@ -243,6 +243,12 @@ func runC09(c *Ctx) {
 
 	// ---- D6: the own chain key is looked up, generated and stored in one write-locked section
 	checkOwnKeyCreationAtomic(c, "D6", class)
+
+	// ---- D7: "no chain key yet" is reported only for the datastore's not-found outcome
+	checkMissSentinel(c, "D7", c09RoleChainKey)
+
+	// ---- D8: reading own messages back never advances the own sending chain
+	checkOwnReadBack(c, "D8")
 }
 
 // freshChainKeyFuncs: module functions that build a DeviceChainKey from crypto/rand.
@@ -618,4 +624,908 @@ func isNonceArrayPtr(t types.Type) bool {
 	}
 	a, ok := p.Elem().Underlying().(*types.Array)
 	return ok && a.Len() == 24
+}
+
+// ---------------------------------------------------------------------------
+// D7 (shared with C10.D7): a lookup reports "missing" - the sentinel its caller answers by
+// CREATING fresh key material - only when the datastore said "not found".
+
+const (
+	c09DsNotFound   = "global:" + pkgDatastore + ".ErrNotFound"
+	c09KsNoSuchKey  = "global:" + pkgKeystore + ".ErrNoSuchKey"
+	c09RoleChainKey = "chain-key"
+	c09RoleNamedKey = "named-key"
+)
+
+// c09SentinelOf: v is a fixed error sentinel: a package-level error variable
+// ("global:<pkg.Name>") or a constant of a named type such as an error code
+// ("const:<type>:<value>").
+func c09SentinelOf(v ssa.Value) (string, bool) {
+	v = stripConv(v)
+	switch x := v.(type) {
+	case *ssa.Const:
+		if x.Value == nil {
+			return "", false
+		}
+		if n, ok := types.Unalias(x.Type()).(*types.Named); ok {
+			return "const:" + types.TypeString(n, nil) + ":" + x.Value.String(), true
+		}
+	case *ssa.UnOp:
+		if x.Op == token.MUL {
+			if g, ok := x.X.(*ssa.Global); ok {
+				if p, ok := g.Type().(*types.Pointer); ok && isErrorType(p.Elem()) {
+					return "global:" + g.String(), true
+				}
+			}
+		}
+	}
+	return "", false
+}
+
+func c09ShortSentinel(s string) string {
+	if i := strings.LastIndex(s, "/"); i >= 0 {
+		return s[i+1:]
+	}
+	return s
+}
+
+// c09ErrorStringOf: v is x.Error() ; returns x.
+func c09ErrorStringOf(v ssa.Value) ssa.Value {
+	c, ok := v.(*ssa.Call)
+	if !ok {
+		return nil
+	}
+	cc := c.Common()
+	if cc.IsInvoke() && cc.Method.Name() == "Error" && len(cc.Args) == 0 {
+		return cc.Value
+	}
+	return nil
+}
+
+// c09CondSentinel analyses cond as a test "error e is sentinel S": e == S, e.Error() ==
+// S.Error(), pred(e, S) for any boolean predicate (errors.Is, errcode.Is ...), and negations.
+func c09CondSentinel(cond ssa.Value, e ssa.Value, depth int) (sent string, isOnTrue bool, ok bool) {
+	if depth > 4 {
+		return "", false, false
+	}
+	same := func(x ssa.Value) bool { return x == e || stripConv(x) == e }
+	switch x := cond.(type) {
+	case *ssa.UnOp:
+		if x.Op == token.NOT {
+			s, t, ok := c09CondSentinel(x.X, e, depth+1)
+			return s, !t, ok
+		}
+	case *ssa.BinOp:
+		if x.Op != token.EQL && x.Op != token.NEQ {
+			return "", false, false
+		}
+		for _, pair := range [][2]ssa.Value{{x.X, x.Y}, {x.Y, x.X}} {
+			a, b := pair[0], pair[1]
+			if same(a) {
+				if s, ok := c09SentinelOf(b); ok {
+					return s, x.Op == token.EQL, true
+				}
+			}
+			if ea := c09ErrorStringOf(a); ea != nil && same(ea) {
+				if eb := c09ErrorStringOf(b); eb != nil {
+					if s, ok := c09SentinelOf(eb); ok {
+						return s, x.Op == token.EQL, true
+					}
+				}
+			}
+		}
+	case *ssa.Call:
+		cc := x.Common()
+		if cc.IsInvoke() || !isBoolType(x.Type()) || len(cc.Args) != 2 {
+			break
+		}
+		if same(cc.Args[0]) {
+			if s, ok := c09SentinelOf(cc.Args[1]); ok {
+				return s, true, true
+			}
+		}
+	}
+	// isNotFound(e): a module helper with one error parameter and a single return of a
+	// sentinel test of that parameter
+	if x, ok := cond.(*ssa.Call); ok && isBoolType(x.Type()) {
+		cc := x.Common()
+		if f := staticCallee(cc); f != nil && inModule(f) && f.Blocks != nil && len(cc.Args) == 1 && len(f.Params) == 1 && same(cc.Args[0]) {
+			if rs := returnsOf(f); len(rs) == 1 && len(rs[0].Results) == 1 {
+				return c09CondSentinel(rs[0].Results[0], f.Params[0], depth+1)
+			}
+		}
+	}
+	return "", false, false
+}
+
+type c09SentTest struct {
+	Sent        string
+	Is, IsNot   edge
+	If          *ssa.If
+	description string
+}
+
+// c09SentinelTests lists the branches of fn that test error value e against a sentinel.
+func c09SentinelTests(fn *ssa.Function, e ssa.Value) []c09SentTest {
+	var out []c09SentTest
+	if e == nil {
+		return nil
+	}
+	for _, b := range fn.Blocks {
+		if len(b.Instrs) == 0 {
+			continue
+		}
+		ifi, ok := b.Instrs[len(b.Instrs)-1].(*ssa.If)
+		if !ok {
+			continue
+		}
+		s, onTrue, ok := c09CondSentinel(ifi.Cond, e, 0)
+		if !ok {
+			continue
+		}
+		t := c09SentTest{Sent: s, If: ifi}
+		if onTrue {
+			t.Is, t.IsNot = edge{b, b.Succs[0]}, edge{b, b.Succs[1]}
+		} else {
+			t.Is, t.IsNot = edge{b, b.Succs[1]}, edge{b, b.Succs[0]}
+		}
+		out = append(out, t)
+	}
+	return out
+}
+
+// c09ValueIsSentinel: the returned error value v is (top-level) the sentinel: the sentinel
+// itself, or <code constant>.Wrap(inner) for a code sentinel.
+func c09ValueIsSentinel(v ssa.Value, sent string, depth int) bool {
+	if v == nil || depth > 4 {
+		return false
+	}
+	if s, ok := c09SentinelOf(v); ok && s == sent {
+		return true
+	}
+	switch x := stripConv(v).(type) {
+	case *ssa.Call:
+		cc := x.Common()
+		if f := staticCallee(cc); f != nil && f.Signature.Recv() != nil && len(cc.Args) >= 1 {
+			// a method of the sentinel constant that yields an error carrying it (ErrCode.Wrap)
+			if s, ok := c09SentinelOf(cc.Args[0]); ok && s == sent && isErrorLike(x.Type()) {
+				return true
+			}
+		}
+	case *ssa.Phi:
+		for _, e := range x.Edges {
+			if c09ValueIsSentinel(e, sent, depth+1) {
+				return true
+			}
+		}
+	}
+	return false
+}
+
+func isErrorLike(t types.Type) bool {
+	if isErrorType(t) {
+		return true
+	}
+	it, ok := t.Underlying().(*types.Interface)
+	if !ok {
+		return false
+	}
+	return types.Implements(t, errorType.Underlying().(*types.Interface)) && it.NumMethods() > 0
+}
+
+type c09Read struct {
+	Instr  ssa.CallInstruction
+	Err    ssa.Value
+	Label  string
+	MissS  string          // sentinel that means "not found" for this read ("" = any sentinel of a module callee)
+	Callee []*ssa.Function // module functions behind the read (to be checked recursively)
+}
+
+// c09ReadsIn: the store reads of fn: direct datastore Get, direct keystore Get, and calls
+// of module functions that (transitively) read.
+func c09ReadsIn(w *World, fn *ssa.Function) []c09Read {
+	ei := w.effects()
+	var out []c09Read
+	for _, s := range ei.sitesIn(fn) {
+		if _, isCall := s.Instr.(*ssa.Call); !isCall {
+			continue
+		}
+		e := errVerdict(s.Instr)
+		if e == nil {
+			continue
+		}
+		switch {
+		case s.Direct && s.Effects[0].Op == "Get":
+			out = append(out, c09Read{Instr: s.Instr, Err: e, Label: "datastore.Get", MissS: c09DsNotFound})
+		case s.Direct && s.Effects[0].Op == "KsGet":
+			out = append(out, c09Read{Instr: s.Instr, Err: e, Label: "keystore.Get", MissS: c09KsNoSuchKey, Callee: w.resolve(s.Instr.Common(), nil)})
+		case !s.Direct:
+			reads := false
+			for _, x := range s.Effects {
+				if x.Op == "Get" || x.Op == "KsGet" {
+					reads = true
+				}
+			}
+			if reads {
+				out = append(out, c09Read{Instr: s.Instr, Err: e, Label: fnName(s.Callee), Callee: calleesAt(w, fn, s.Instr)})
+			}
+		}
+	}
+	return out
+}
+
+type c09MissChecker struct {
+	c     *Ctx
+	rule  string
+	seen  map[string]bool
+	count int
+}
+
+// translator checks fn as a function that reports sentinel sent to its caller: every return
+// of the sentinel that can follow a store read must be on the "not found" side of a test of
+// that read's error (or after the read succeeded). Any other read failure - an I/O fault, a
+// cancelled context - must surface as an error that is not the sentinel.
+func (m *c09MissChecker) translator(fn *ssa.Function, sent string, depth int) {
+	if fn == nil || fn.Blocks == nil || depth > 3 {
+		return
+	}
+	key := fn.String() + "|" + sent
+	if m.seen[key] {
+		return
+	}
+	m.seen[key] = true
+	c, w := m.c, m.c.W
+	c.analysed(fn)
+	idx := errResultIndex(fn.Signature)
+	if idx < 0 {
+		return
+	}
+	reads := c09ReadsIn(w, fn)
+	var sentinelReturns []*ssa.Return
+	for _, r := range returnsOf(fn) {
+		rr := retResults(r)
+		if idx >= len(rr) {
+			continue
+		}
+		ev := rr[idx]
+		// forwarded unchanged from a callee: that callee is a translator for the same sentinel
+		forwarded := false
+		for _, rd := range reads {
+			if stripConv(ev) == rd.Err {
+				forwarded = true
+				for _, cal := range rd.Callee {
+					m.translator(cal, sent, depth+1)
+				}
+			}
+		}
+		if !forwarded && c09ValueIsSentinel(ev, sent, 0) {
+			sentinelReturns = append(sentinelReturns, r)
+		}
+	}
+	for _, rd := range reads {
+		// edges after which the sentinel is justified for this read: "not found" outcome, or success
+		cut := map[edge]bool{}
+		for _, e := range edgesOfVerdict(rd.Err).Accept {
+			cut[e] = true
+		}
+		missTested := ""
+		for _, t := range c09SentinelTests(fn, rd.Err) {
+			if rd.MissS == "" || t.Sent == rd.MissS {
+				cut[t.Is] = true
+				missTested = t.Sent
+				if rd.MissS == "" {
+					for _, cal := range rd.Callee {
+						m.translator(cal, t.Sent, depth+1)
+					}
+				}
+			}
+		}
+		blk := rd.Instr.(ssa.Instruction).Block()
+		var starts []edge
+		for _, s := range blk.Succs {
+			if !cut[edge{blk, s}] {
+				starts = append(starts, edge{blk, s})
+			}
+		}
+		region := reachFromEdges(starts, cut)
+		var bad []*ssa.Return
+		follows := false
+		for _, r := range sentinelReturns {
+			if r.Block() == blk || instrReaches(rd.Instr.(ssa.Instruction), r) {
+				follows = true
+			}
+			if r.Block() == blk || region[r.Block()] {
+				bad = append(bad, r)
+			}
+		}
+		if !follows {
+			continue
+		}
+		m.count++
+		construct := fnName(fn) + "+" + c09ShortSentinel(sent) + "<-" + rd.Label
+		okMsg := "the 'missing' sentinel is returned only when the read reported " + c09ShortSentinel(missTested) + " (or succeeded)"
+		c.check(len(bad) == 0, m.rule, construct, posOf(rd.Instr), okMsg,
+			fmt.Sprintf("a failure of %s other than 'not found' is reported as %s (return at %s): the caller answers that sentinel by creating a fresh key, so one transient read fault replaces the key in use", rd.Label, c09ShortSentinel(sent), describeReturns(c, bad)))
+		if rd.MissS != "" {
+			for _, cal := range rd.Callee {
+				m.translator(cal, rd.MissS, depth+1)
+			}
+		}
+	}
+}
+
+// c09FreshKeyCalls: call sites in fn that produce fresh random key material.
+func c09FreshKeyCalls(w *World, fn *ssa.Function, role string) []ssa.CallInstruction {
+	var out []ssa.CallInstruction
+	if role == c09RoleChainKey {
+		fresh := freshChainKeyFuncs(w)
+		for _, e := range w.callGraph().callees[fn] {
+			if fresh[e.Callee] {
+				out = append(out, e.Site)
+			}
+		}
+		return out
+	}
+	return callsIn(fn, func(k string, cc *ssa.CallCommon) bool {
+		if cc.IsInvoke() {
+			return false
+		}
+		i := strings.LastIndex(k, ".")
+		if i < 0 {
+			return false
+		}
+		pkg, name := k[:i], k[i+1:]
+		switch {
+		case pkg == "github.com/libp2p/go-libp2p/core/crypto" && strings.HasPrefix(name, "Generate"):
+			return true
+		case strings.HasPrefix(pkg, "crypto/") && name == "GenerateKey":
+			return true
+		}
+		return false
+	})
+}
+
+// checkMissSentinel (D7): for every get-or-create function of the role - a lookup of the
+// stored key, fresh random key material when the lookup misses, a store of the new key -
+//
+//	(a) the fresh key is generated only on the side of a test that the lookup error IS the
+//	    "missing" sentinel (not on any failure of the lookup), and
+//	(b) every function behind the lookup that can report that sentinel does so only for the
+//	    datastore's / keystore's own "not found" outcome.
+func checkMissSentinel(c *Ctx, rule, role string) {
+	w := c.W
+	ei := w.effects()
+	mc := &c09MissChecker{c: c, rule: rule, seen: map[string]bool{}}
+	n := 0
+	for _, fn := range w.ModFuncs {
+		if !inModule(fn) {
+			continue
+		}
+		// cheap pre-filters (effect summaries are expensive)
+		if role == c09RoleChainKey && fnPkg(fn).Path() != pkgSecret {
+			continue
+		}
+		if role == c09RoleNamedKey && len(callsIn(fn, func(k string, cc *ssa.CallCommon) bool {
+			return cc.IsInvoke() && isNamed(cc.Value.Type(), pkgKeystore, "Keystore")
+		})) == 0 {
+			continue
+		}
+		var lookups []effectSite
+		stores := 0
+		for _, s := range ei.sitesIn(fn) {
+			switch role {
+			case c09RoleChainKey:
+				if s.has(eff("Get", nsChainKey)) && s.pureLookup() {
+					lookups = append(lookups, s)
+				}
+				if s.has(eff("Put", nsChainKey)) {
+					stores++
+				}
+			case c09RoleNamedKey:
+				if s.Direct && s.Effects[0].Op == "KsGet" {
+					lookups = append(lookups, s)
+				}
+				if s.Direct && s.Effects[0].Op == "KsPut" {
+					stores++
+				}
+			}
+		}
+		if len(lookups) == 0 || stores == 0 {
+			continue
+		}
+		gens := c09FreshKeyCalls(w, fn, role)
+		if len(gens) == 0 {
+			continue
+		}
+		n++
+		c.analysed(fn)
+		for _, g := range gens {
+			construct := fnName(fn) + "+create-on-miss"
+			var hit *c09SentTest
+			var hitLookup effectSite
+			for _, l := range lookups {
+				e := errVerdict(l.Instr)
+				for _, t := range c09SentinelTests(fn, e) {
+					t := t
+					if edgeDominates(t.Is, g.(ssa.Instruction).Block()) {
+						hit, hitLookup = &t, l
+					}
+				}
+			}
+			if hit == nil {
+				c.fail(rule, construct, posOf(g), "a fresh key is generated although the lookup of the stored one was not tested to have reported exactly the 'missing' sentinel: any failure of the lookup (I/O fault, cancelled context) replaces the key in use by a new one")
+				continue
+			}
+			c.ok(rule, construct, posOf(g), "fresh key generated only when the lookup reported %s", c09ShortSentinel(hit.Sent))
+			var trans []*ssa.Function
+			if hitLookup.Direct {
+				trans = w.resolve(hitLookup.Instr.Common(), nil)
+			} else {
+				trans = calleesAt(w, fn, hitLookup.Instr)
+			}
+			if len(trans) == 0 {
+				c.note("%s: the lookup behind %s has no implementation inside the module; exactness of %s is decided for module implementations only", rule, fnName(fn), c09ShortSentinel(hit.Sent))
+			}
+			for _, t := range trans {
+				mc.translator(t, hit.Sent, 0)
+			}
+		}
+	}
+	if n == 0 {
+		c.undecided(rule, "get-or-create("+role+")", token.NoPos, "no function that looks up a stored key, generates a fresh one and stores it was found for role %s", role)
+	}
+	c.count(rule+"_translator_reads", mc.count)
+}
+
+// ---------------------------------------------------------------------------
+// D8: the chain only moves forward by SealEnvelope - reading one's own messages back never
+// advances the own sending chain.
+
+// c09OwnParamIndex traces v (inside fn, a function of scope) back to a parameter of root
+// through the call sites of scope functions; -1 when it is not exactly one root parameter.
+func c09OwnParamIndex(w *World, v ssa.Value, root *ssa.Function, scope map[*ssa.Function]int, depth int) int {
+	v = stripConv(v)
+	// the raw bytes of a key stand for the key: k.Raw()
+	if ex, ok := v.(*ssa.Extract); ok && ex.Index == 0 {
+		if call, ok := ex.Tuple.(*ssa.Call); ok && call.Common().IsInvoke() && call.Common().Method.Name() == "Raw" {
+			v = stripConv(call.Common().Value)
+		}
+	}
+	p, ok := v.(*ssa.Parameter)
+	if !ok || depth > 4 {
+		return -1
+	}
+	fn := p.Parent()
+	idx := -1
+	for i, q := range fn.Params {
+		if q == p {
+			idx = i
+		}
+	}
+	if idx < 0 {
+		return -1
+	}
+	if fn == root {
+		return idx
+	}
+	res := -2
+	for _, cs := range w.callGraph().callers[fn] {
+		if _, in := scope[cs.Caller]; !in {
+			continue
+		}
+		cc := cs.Instr.Common()
+		args := cc.Args
+		if cc.IsInvoke() {
+			args = append([]ssa.Value{cc.Value}, args...)
+		}
+		if idx >= len(args) {
+			return -1
+		}
+		r := c09OwnParamIndex(w, args[idx], root, scope, depth+1)
+		if res == -2 {
+			res = r
+		} else if res != r {
+			return -1
+		}
+	}
+	if res == -2 {
+		return -1
+	}
+	return res
+}
+
+// c09IsSenderKey: v derives from the DevicePk field of the message headers.
+func c09IsSenderKey(w *World, v ssa.Value) bool {
+	rs := rootsOf(provCfg{W: w, MaxDepth: 3}, v)
+	for r := range rs {
+		if (strings.HasPrefix(r, "param:") || strings.HasPrefix(r, "base:")) && strings.HasSuffix(r, ".DevicePk") {
+			return true
+		}
+	}
+	return false
+}
+
+type c09OwnGuard struct {
+	OwnIdx int
+	Why    string
+}
+
+// c09OwnDeviceGuard: is site (in fn) executed only when the sender of the message differs
+// from the own-device parameter of root (or when there is no own device)? Returns the index
+// of that parameter in root.Params.
+func c09OwnDeviceGuard(w *World, fn *ssa.Function, site ssa.Instruction, root *ssa.Function, scope map[*ssa.Function]int) (c09OwnGuard, bool) {
+	type cmp struct {
+		equal, differ edge
+		own           int
+	}
+	var cmps []cmp
+	nilEdges := map[int][]edge{}
+	for _, b := range fn.Blocks {
+		if len(b.Instrs) == 0 {
+			continue
+		}
+		ifi, ok := b.Instrs[len(b.Instrs)-1].(*ssa.If)
+		if !ok {
+			continue
+		}
+		cond, neg := ifi.Cond, false
+		for {
+			u, ok := cond.(*ssa.UnOp)
+			if !ok || u.Op != token.NOT {
+				break
+			}
+			cond, neg = u.X, !neg
+		}
+		switch x := cond.(type) {
+		case *ssa.Call:
+			// own.Equals(sender) / sender.Equals(own) / bytes.Equal(ownRaw, sender)
+			cc := x.Common()
+			if !isBoolType(x.Type()) {
+				continue
+			}
+			var ops []ssa.Value
+			switch {
+			case cc.IsInvoke() && cc.Method.Name() == "Equals" && len(cc.Args) == 1:
+				ops = []ssa.Value{cc.Value, cc.Args[0]}
+			case !cc.IsInvoke() && len(cc.Args) == 2 && (calleeKey(cc) == "bytes.Equal" || strings.HasSuffix(calleeKey(cc), ".Equals") || strings.HasSuffix(calleeKey(cc), ".KeyEqual")):
+				ops = []ssa.Value{cc.Args[0], cc.Args[1]}
+			default:
+				continue
+			}
+			for _, pr := range [][2]ssa.Value{{ops[0], ops[1]}, {ops[1], ops[0]}} {
+				own := c09OwnParamIndex(w, pr[0], root, scope, 0)
+				if own < 0 || !c09IsSenderKey(w, pr[1]) {
+					continue
+				}
+				eq, df := edge{b, b.Succs[0]}, edge{b, b.Succs[1]}
+				if neg {
+					eq, df = df, eq
+				}
+				cmps = append(cmps, cmp{eq, df, own})
+			}
+		case *ssa.BinOp:
+			if x.Op != token.EQL && x.Op != token.NEQ {
+				continue
+			}
+			var other ssa.Value
+			switch {
+			case isNilConst(x.Y):
+				other = x.X
+			case isNilConst(x.X):
+				other = x.Y
+			default:
+				continue
+			}
+			own := c09OwnParamIndex(w, other, root, scope, 0)
+			if own < 0 {
+				continue
+			}
+			isNil := edge{b, b.Succs[0]}
+			if (x.Op == token.NEQ) != neg {
+				isNil = edge{b, b.Succs[1]}
+			}
+			nilEdges[own] = append(nilEdges[own], isNil)
+		}
+	}
+	if len(cmps) == 0 {
+		return c09OwnGuard{Why: "no comparison between the sender of the message (headers.DevicePk) and the own-device argument"}, false
+	}
+	why := ""
+	for _, cm := range cmps {
+		// (i) not reachable once the keys compared equal
+		if reachFromEdges([]edge{cm.equal}, nil)[site.Block()] {
+			why = "the update is reachable on the side where the sender EQUALS the own device"
+			continue
+		}
+		// (ii) every path to the site takes the "differs" edge or a "no own device" edge
+		cut := map[edge]bool{cm.differ: true}
+		for _, e := range nilEdges[cm.own] {
+			cut[e] = true
+		}
+		if reach(fn.Blocks[0], cut)[site.Block()] {
+			why = "the update is reachable without the sender having been compared with the own device"
+			continue
+		}
+		return c09OwnGuard{OwnIdx: cm.own}, true
+	}
+	return c09OwnGuard{Why: why}, false
+}
+
+// c09OwnDeviceValue: v is the Device() key of an OwnMemberDevice (or nil: no own device).
+func c09OwnDeviceValue(w *World, v ssa.Value, depth int, seen map[ssa.Value]bool) (bool, string) {
+	v = stripConv(v)
+	if seen[v] {
+		return true, ""
+	}
+	seen[v] = true
+	if depth > 4 {
+		return false, "a value too far from its origin to be identified"
+	}
+	own := namedType(w, pkgSecret, "OwnMemberDevice")
+	var ownIface *types.Interface
+	if own != nil {
+		ownIface, _ = own.Underlying().(*types.Interface)
+	}
+	isOwnMD := func(t types.Type) bool {
+		if ownIface == nil {
+			return false
+		}
+		return types.Implements(t, ownIface) || types.Implements(types.NewPointer(t), ownIface)
+	}
+	switch x := v.(type) {
+	case *ssa.Const:
+		if x.Value == nil {
+			return true, ""
+		}
+	case *ssa.Phi:
+		for _, e := range x.Edges {
+			if ok, why := c09OwnDeviceValue(w, e, depth, seen); !ok {
+				return false, why
+			}
+		}
+		return true, ""
+	case *ssa.Extract:
+		if call, ok := x.Tuple.(*ssa.Call); ok {
+			if f := staticCallee(call.Common()); f != nil && inModule(f) && f.Blocks != nil {
+				for _, r := range returnsOf(f) {
+					if rr := retResults(r); x.Index < len(rr) {
+						if isSuccessReturn(r) {
+							if ok, why := c09OwnDeviceValue(w, rr[x.Index], depth+1, seen); !ok {
+								return false, why
+							}
+						}
+					}
+				}
+				return true, ""
+			}
+		}
+	case *ssa.Call:
+		cc := x.Common()
+		name := ""
+		var recvT types.Type
+		if cc.IsInvoke() {
+			name, recvT = cc.Method.Name(), cc.Value.Type()
+		} else if f := staticCallee(cc); f != nil {
+			if f.Signature.Recv() != nil && len(cc.Args) > 0 {
+				name, recvT = f.Name(), cc.Args[0].Type()
+			} else if inModule(f) && f.Blocks != nil {
+				// helper: look at what it returns
+				for _, r := range returnsOf(f) {
+					if rr := retResults(r); len(rr) > 0 {
+						if ok, why := c09OwnDeviceValue(w, rr[0], depth+1, seen); !ok {
+							return false, why
+						}
+					}
+				}
+				return true, ""
+			}
+		}
+		if recvT != nil && len(cc.Args) <= 1 {
+			switch {
+			case name == "Device" && isOwnMD(recvT):
+				return true, ""
+			case name == "Device":
+				return false, "the Device() key of a value that is not an OwnMemberDevice (some other member's device)"
+			case name == "Member" && (isOwnMD(recvT) || isNamed(recvT, pkgSecret, "MemberDevice")):
+				return false, "the MEMBER key (Member()), not the DEVICE key: headers carry device keys, so no sender ever equals it"
+			}
+		}
+	case *ssa.UnOp:
+		if x.Op != token.MUL {
+			break
+		}
+		switch a := x.X.(type) {
+		case *ssa.FieldAddr:
+			pt, ok := a.X.Type().Underlying().(*types.Pointer)
+			if !ok {
+				break
+			}
+			stT := pt.Elem()
+			n := 0
+			for _, fn := range w.ModFuncs {
+				for _, b := range fn.Blocks {
+					for _, in := range b.Instrs {
+						st, ok := in.(*ssa.Store)
+						if !ok {
+							continue
+						}
+						fa, ok := st.Addr.(*ssa.FieldAddr)
+						if !ok || fa.Field != a.Field {
+							continue
+						}
+						pt2, ok := fa.X.Type().Underlying().(*types.Pointer)
+						if !ok || !types.Identical(pt2.Elem(), stT) {
+							continue
+						}
+						n++
+						if ok, why := c09OwnDeviceValue(w, st.Val, depth+1, seen); !ok {
+							return false, why
+						}
+					}
+				}
+			}
+			if n == 0 {
+				return false, "the field read here is never assigned: the own device is unknown to the open path"
+			}
+			return true, ""
+		case *ssa.Alloc:
+			n := 0
+			if a.Referrers() != nil {
+				for _, r := range *a.Referrers() {
+					if st, ok := r.(*ssa.Store); ok && st.Addr == ssa.Value(a) {
+						n++
+						if ok, why := c09OwnDeviceValue(w, st.Val, depth, seen); !ok {
+							return false, why
+						}
+					}
+				}
+			}
+			if n > 0 {
+				return true, ""
+			}
+		}
+	case *ssa.Parameter:
+		fn := x.Parent()
+		idx := -1
+		for i, q := range fn.Params {
+			if q == x {
+				idx = i
+			}
+		}
+		callers := w.callGraph().callers[fn]
+		if idx < 0 || len(callers) == 0 || (fn.Object() != nil && fn.Object().Exported()) {
+			return false, "an arbitrary key supplied by the caller of " + fnName(fn)
+		}
+		for _, cs := range callers {
+			cc := cs.Instr.Common()
+			args := cc.Args
+			if cc.IsInvoke() {
+				args = append([]ssa.Value{cc.Value}, args...)
+			}
+			if idx < len(args) {
+				if ok, why := c09OwnDeviceValue(w, args[idx], depth+1, seen); !ok {
+					return false, why
+				}
+			}
+		}
+		return true, ""
+	}
+	return false, "a value that cannot be traced to the Device() key of the store's OwnMemberDevice"
+}
+
+// checkOwnReadBack (D8).
+func checkOwnReadBack(c *Ctx, rule string) {
+	w := c.W
+	ei := w.effects()
+	impl := secretStoreMethod(w, "OpenEnvelopePayload")
+	if impl == nil {
+		c.undecided(rule, "OpenEnvelopePayload", token.NoPos, "SecretStore.OpenEnvelopePayload not found")
+		return
+	}
+	c.analysed(impl)
+	scope := map[*ssa.Function]int{}
+	for f, d := range w.reachableFuncs([]*ssa.Function{impl}, 5) {
+		if fnPkg(f) != nil && fnPkg(f).Path() == pkgSecret {
+			scope[f] = d
+		}
+	}
+	putChain := eff("Put", nsChainKey)
+	exempt := creationGuarded(w)
+	ownIdx := map[int]bool{}
+	paths := 0
+	var walk func(fn *ssa.Function, chain []string, seen map[*ssa.Function]bool, reason string)
+	walk = func(fn *ssa.Function, chain []string, seen map[*ssa.Function]bool, reason string) {
+		if seen[fn] || len(chain) > 6 {
+			return
+		}
+		seen[fn] = true
+		defer delete(seen, fn)
+		here := append(append([]string{}, chain...), fnName(fn))
+		for _, s := range ei.sitesIn(fn) {
+			if !s.has(putChain) {
+				continue
+			}
+			in := s.Instr.(ssa.Instruction)
+			if exempt(in) {
+				continue
+			}
+			g, ok := c09OwnDeviceGuard(w, fn, in, impl, scope)
+			if ok {
+				paths++
+				ownIdx[g.OwnIdx] = true
+				c.analysed(fn)
+				c.ok(rule, strings.Join(here, "->")+"+update-skipped-for-own-device", posOf(s.Instr), "the stored chain key is updated only when the sender differs from the own device (parameter #%d of %s)", g.OwnIdx, fnName(impl))
+				continue
+			}
+			why := reason
+			if why == "" || !strings.HasPrefix(g.Why, "no comparison") {
+				why = g.Why + " in " + fnName(fn)
+			}
+			if s.Direct {
+				paths++
+				c.fail(rule, strings.Join(here, "->")+"+update-skipped-for-own-device", posOf(s.Instr), "opening a message can overwrite the chain key of its sender even when the sender is this device (%s): reading one's own messages back advances the own sending chain, counters get gaps and receivers run out of keys", why)
+				continue
+			}
+			descended := false
+			for _, cal := range calleesAt(w, fn, s.Instr) {
+				if _, in := scope[cal]; in {
+					descended = true
+					next := reason
+					if !strings.HasPrefix(g.Why, "no comparison") {
+						next = g.Why + " in " + fnName(fn)
+					}
+					walk(cal, here, seen, next)
+				}
+			}
+			if !descended {
+				paths++
+				c.fail(rule, strings.Join(here, "->")+"+update-skipped-for-own-device", posOf(s.Instr), "chain-key update behind a call that could not be followed")
+			}
+		}
+	}
+	walk(impl, nil, map[*ssa.Function]bool{}, "")
+	if paths == 0 {
+		c.undecided(rule, fnName(impl)+"+update", impl.Pos(), "no update of a stored chain key found on the open path")
+		return
+	}
+	if len(ownIdx) == 0 {
+		// every path was reported above; without a guard the own-device parameter is unknown
+		c.note("%s: the own-device parameter of %s could not be identified (no guarded update path); its callers were not checked", rule, fnName(impl))
+		return
+	}
+	if len(ownIdx) != 1 {
+		c.undecided(rule, fnName(impl)+"+own-device-parameter", impl.Pos(), "cannot identify the own-device parameter of OpenEnvelopePayload (candidates %v)", ownIdx)
+		return
+	}
+	own := -1
+	for i := range ownIdx {
+		own = i
+	}
+	// (a) every module call passes the Device() key of the OwnMemberDevice
+	nCalls := 0
+	for _, fn := range w.ModFuncs {
+		for _, ci := range callsIn(fn, func(k string, cc *ssa.CallCommon) bool {
+			if cc.IsInvoke() {
+				return cc.Method.Name() == impl.Name() && isNamed(cc.Value.Type(), pkgSecret, "SecretStore")
+			}
+			return staticCallee(cc) == impl
+		}) {
+			cc := ci.Common()
+			ai := own
+			if cc.IsInvoke() {
+				ai = own - 1
+			}
+			if ai < 0 || ai >= len(cc.Args) {
+				continue
+			}
+			nCalls++
+			c.analysed(fn)
+			ok, why := c09OwnDeviceValue(w, cc.Args[ai], 0, map[ssa.Value]bool{})
+			c.check(ok, rule, fnName(fn)+"+OpenEnvelopePayload(own-device)", posOf(ci), "the own-device argument is the Device() key of the store's OwnMemberDevice (or nil)",
+				"the own-device argument of OpenEnvelopePayload is "+why+"; the secret store then takes this device's own messages for someone else's and advances the own sending chain when they are read back")
+		}
+	}
+	if nCalls == 0 {
+		c.undecided(rule, "OpenEnvelopePayload callers", token.NoPos, "no module call of SecretStore.OpenEnvelopePayload found")
+	}
 }
